@@ -6,6 +6,7 @@ import Driver.PrintCmd
 import Driver.ObjCmd
 import Driver.OrdCmd
 import Driver.UeqCmd
+import Driver.CanonCmd
 /-!
 Line-protocol driver: one request per line on stdin, one reply per line on stdout.
 The first word selects the model component; see DESIGN.md §2.4.
@@ -21,6 +22,7 @@ def handle (line : String) : String :=
   | "obj" :: args => objCmd args
   | "ord" :: args => ordCmd args
   | "ueq" :: args => ueqCmd args
+  | "canon" :: args => canonCmd args
   | _ => "bad-op"
 
 partial def loop (hin : IO.FS.Stream) (hout : IO.FS.Stream) : IO Unit := do
